@@ -342,8 +342,9 @@ class Check:
         ev = {"property_id": self.prop, "tier": self.tier, "seed": self.seed, "level": self.level,
               "coverage": cov, "assumptions": self.assumptions, "wall_s": round(wall, 2),
               "violations": len(self.violations)}
-        EVID.mkdir(exist_ok=True)
-        (EVID / f"{self.prop}.json").write_text(json.dumps(ev, indent=1, default=str) + "\n")
+        if getattr(self, "write_evidence", True):
+            EVID.mkdir(exist_ok=True)
+            (EVID / f"{self.prop}.json").write_text(json.dumps(ev, indent=1, default=str) + "\n")
         for d in self.drift[:5]:
             print(f"DRIFT property={self.prop} (implementation-level model and code differ; verdict by the contract only): {d}"[:400])
         for sig, text in sorted(self.known_seen.items()):
